@@ -351,7 +351,10 @@ def tuple_elts(fn: FunctionInfo, e: ast.AST | None) -> list[ast.AST]:
     if isinstance(e, ast.Tuple):
         return list(e.elts)
     if isinstance(e, ast.Call) and isinstance(e.func, ast.Name):
-        fields = record_fields(fn, e.func.id)
+        cname = e.func.id
+        if cname == "cls" and fn.cls is not None and fn.has_decorator("classmethod"):
+            cname = fn.cls.name  # `return cls(x=a, y=b)` in a classmethod of the record class
+        fields = record_fields(fn, cname)
         if fields is not None and not any(isinstance(a, ast.Starred) for a in e.args) and all(k.arg in fields for k in e.keywords):
             out: list[ast.AST | None] = [None] * len(fields)
             for i, a in enumerate(e.args[: len(fields)]):
@@ -414,3 +417,27 @@ def referenced_only_from(ci, name: str, allowed: set[str], _seen: set[str] | Non
             if isinstance(x, ast.Attribute) and x.attr == name and isinstance(x.value, ast.Name) and x.value.id in (m.self_name, "cls"):
                 users.add(m.name)
     return bool(users) and all(referenced_only_from(ci, u, allowed, seen) for u in users)
+
+
+def tail_delegate(fn: FunctionInfo, depth: int = 2) -> FunctionInfo:
+    """the function that holds the loop: when `fn` has no loop of its own and ends in `return [await] self._helper(<namesake
+    arguments>)` (a long function split in two), the private helper - else `fn` itself"""
+    for _ in range(depth):
+        if isinstance(fn.node, ast.Lambda) or any(isinstance(x, (ast.While, ast.For, ast.AsyncFor)) for x in own_nodes(fn.node)):
+            return fn
+        last = fn.node.body[-1] if fn.node.body else None
+        v = last.value if isinstance(last, ast.Return) else None
+        if isinstance(v, ast.Await):
+            v = v.value
+        if not isinstance(v, ast.Call):
+            return fn
+        g = private_helper(fn, v)
+        if g is None or isinstance(g.node, ast.Lambda):
+            return fn
+        ps = [a.arg for a in g.params()]
+        if g.cls is not None and ps and not g.has_decorator("staticmethod"):
+            ps = ps[1:]
+        if v.keywords or not all(isinstance(a, ast.Name) and i < len(ps) and a.id == ps[i] for i, a in enumerate(v.args)):
+            return fn
+        fn = g
+    return fn
